@@ -22,6 +22,7 @@ func init() {
 	verifrt.Register("H_C15_Validate", H_C15_Validate)
 	verifrt.Register("H_C14_Data", H_C14_Data)
 	verifrt.Register("H_C14_Static", H_C14_Static)
+	verifrt.Register("H_C14_StaticAudit", H_C14_StaticAudit)
 }
 
 // vGate is a gatekeeper that records every call made to it.
@@ -218,29 +219,55 @@ func H_C14_Data(v *verifrt.T) {
 	}
 }
 
-// C14.O3: the static route with an arbitrary URL path: the file system is
-// reached only below ServeDir/<source>.
+// C14.O3: the static route with an arbitrary source name and URL path
+// (symbolic bytes): nothing outside ServeDir/<source> is deleted or modified
+// (post-state oracle, natively replayable).
 func H_C14_Static(v *verifrt.T) {
-	l := v.Param("L", 4)
+	c14static(v, false)
+}
+
+// C14.O3b (engine-observed): the static route never even reads or lists
+// anything outside ServeDir — every file-system access is monitored.
+func H_C14_StaticAudit(v *verifrt.T) {
+	c14static(v, true)
+}
+
+func c14static(v *verifrt.T, audit bool) {
+	l := v.Param("L", 3)
 	root := v.TempRoot()
 	serve := filepath.Join(root, "serve")
 	v.Version("v1", 4)
 	v.PutVersionFile(filepath.Join(serve, "src", "x"), "v1")
+	v.PutVersionFile(filepath.Join(serve, "other", "y"), "v1")
 	v.PutVersionFile(filepath.Join(root, "secret"), "v1")
+	v.PutVersionFile(filepath.Join(root, "stage", "z.part"), "v1")
+	source := "src"
+	if v.Choose("symbolic-source", 2) == 1 {
+		source = v.Bytes("source", 1+v.Choose("source-len", 2))
+	}
 	p := v.Bytes("path", 1+v.Choose("len", l))
 	escaped := false
-	v.OnFS(func(op, path string) {
-		if !(strings.HasPrefix(path, serve+"/src/") || path == serve+"/src" || path == serve) {
-			escaped = true
-		}
-	})
+	if audit {
+		v.OnFS(func(op, path string) {
+			if !(strings.HasPrefix(path, serve+"/") || path == serve) {
+				escaped = true
+			}
+		})
+	}
 	s := &Server{ServeDir: serve}
 	method := []string{"GET", "DELETE"}[v.Choose("method", 2)]
-	r := &nethttp.Request{Method: method, Header: nethttp.Header{"X-Sts-Srcname": []string{"src"}}, URL: &url.URL{Path: "/static/" + p}}
+	r := &nethttp.Request{Method: method, Header: nethttp.Header{"X-Sts-Srcname": []string{source}}, URL: &url.URL{Path: "/static/" + p}}
 	w := &vWriter{}
 	s.routeFile(w, r)
-	v.Assert(!escaped, "C14.O3 the static route never reaches outside ServeDir/<source>")
-	v.Assert(v.Exists(filepath.Join(root, "secret")), "C14.O3 a file outside the serve directory is never deleted")
+	if audit {
+		v.OnFS(nil)
+		v.Assert(!escaped, "C14.O3 the static route never reaches outside the serve directory")
+	}
+	v.Assert(v.FileIs(filepath.Join(root, "secret"), "v1"), "C14.O3 a file outside the serve directory is never deleted or modified")
+	v.Assert(v.FileIs(filepath.Join(root, "stage", "z.part"), "v1"), "C14.O3 a staged file is never deleted through the static route")
+	if source == "src" {
+		v.Assert(v.FileIs(filepath.Join(serve, "other", "y"), "v1"), "C14.O3 another source's served file is never deleted")
+	}
 	if w.status >= 400 {
 		v.Reach("refused")
 	} else {
